@@ -12,6 +12,8 @@ def observe(h):
             # the start/stop notifications a pause itself causes are not part of the run's outcome
             "notifications": [(n[0], None if n[1] is None else float(n[1]).hex()) for n in h.nlog
                               if n[0] not in ("STARTING_EVENT", "START_EVENT", "STOPPING_EVENT", "STOP_EVENT")],
+            "notifications_without_time_changed": [(n[0], None if n[1] is None else float(n[1]).hex()) for n in h.nlog
+                                                   if n[0] in ("START_REPLICATION_EVENT", "WARMUP_EVENT", "END_REPLICATION_EVENT")],
             "timeline": [r for r in h.timeline if r[0] in ("l", "d", "u")],
             "stats": {k: stat_getters(st) for k, st in sorted(h.stats.items())},
             "clock": float(h.sim.simulator_time).hex(), "state": h.sim.run_state.name}
@@ -68,6 +70,17 @@ def main():
             if h.cmd("initialize") != "ok":
                 res = {"ok": False, "why": "initialize"}
             else:
+                if cfg.get("chunks"):
+                    from vlib.refdevs import tnum
+                    start = tnum(prog, prog["rep"]["start"])
+                    length = tnum(prog, prog["rep"]["length"])
+                    for frac in cfg["chunks"]:
+                        if h.sim.run_state.name == "ENDED":
+                            break
+                        t = start + frac * length
+                        lit = [float(t), "s"] if prog["clock"] == "duration" else (int(t) if prog["clock"] == "int" else float(t))
+                        h.cmd("run_up_to", lit)
+                        h.wait_quiescent(20)
                 for k in cfg["pauses"]:
                     if h.sim.run_state.name == "ENDED":
                         break
